@@ -80,6 +80,50 @@ theorem C06_success_or_unchanged (sch : Schema) (s : St) (op : Op) (inj : Option
     exact C06_failed_op_is_noop_partial sch s _ op inj e hA (by rw [← hr])
 
 
+/-! ## no orphan parent row: the clean-up sequence is the exact inverse of the parent's creation -/
+
+/-- the clean-up of a failed child create, on the state level: after the parent's INSERT,
+    registration and read-back, the sequence obsolete / DELETE / cache.expire / (instance unreachable)
+    restores tables, instances and registrations exactly, provided the new id is fresh -/
+theorem C06_cleanup_undoes_parent_insert (k : Core) (p pid : Nat) (vals : List Val)
+    (hp : p < k.tabs.length)
+    (hrow : ∀ r ∈ k.tabs.getD p [], (r.id != pid) = true)
+    (hinst : ∀ i ∈ k.insts, i.is p pid = false)
+    (hreg : ∀ r ∈ k.reg, (r != (p, pid)) = true) :
+    let k1 : Core := { k with tabs := k.tabs.set p (k.tabs.getD p [] ++ [⟨pid, vals⟩]) }
+    let k2 := applyMem (.reload p pid) (applyMem (.addInst p pid vals) k1)
+    let k3 := applyMem (.obsolete p pid) k2
+    let k4 : Core := { k3 with tabs := k3.tabs.set p ((k3.tabs.getD p []).filter fun r => r.id != pid) }
+    applyMem (.drop p pid) (applyMem (.unreg p pid) k4) = k := by
+  intro k1 k2 k3 k4
+  have hfilt : ((k.tabs.getD p [] ++ [⟨pid, vals⟩] : List Row).filter fun r => r.id != pid) = k.tabs.getD p [] := by
+    rw [List.filter_append, List.filter_eq_self.mpr hrow]; simp
+  have hmap : ∀ f : Inst → Inst, (k.insts.map fun i => if i.is p pid then f i else i) = k.insts := by
+    intro f
+    conv => rhs; rw [← List.map_id k.insts]
+    apply List.map_congr_left
+    intro i hi; simp [hinst i hi]
+  have hdrop : (k.insts.filter fun i => !(i.is p pid)) = k.insts :=
+    List.filter_eq_self.mpr (by intro i hi; simp [hinst i hi])
+  have hregf : (k.reg.filter fun r => r != (p, pid)) = k.reg := List.filter_eq_self.mpr hreg
+  have his : (Inst.mk p pid vals [] false false).is p pid = true := by simp [Inst.is]
+  have hget : (k.tabs.set p (k.tabs.getD p [] ++ [⟨pid, vals⟩])).getD p [] = k.tabs.getD p [] ++ [⟨pid, vals⟩] := by
+    simp [List.getD, hp]
+  have hfind : ((k.tabs.getD p [] ++ [⟨pid, vals⟩] : List Row).find? fun r => r.id == pid) = some ⟨pid, vals⟩ := by
+    rw [List.find?_append]
+    have : (k.tabs.getD p []).find? (fun r => r.id == pid) = none := by
+      rw [List.find?_eq_none]; intro r hr; have := hrow r hr; simpa using this
+    rw [this]; simp
+  simp only [k4, k3, k2, k1, applyMem, mapInst, rowVals, hget, hfind, Option.map_some, List.map_append,
+    List.map_map, List.filter_append, List.set_set, hfilt]
+  have hcomp : ∀ g : Inst → Inst, (∀ i, i.is p pid = false → g i = i) → k.insts.map g = k.insts := by
+    intro g hg
+    conv => rhs; rw [← List.map_id k.insts]
+    apply List.map_congr_left
+    intro i hi; simp [hg i (hinst i hi)]
+  rw [hcomp _ (by intro i hi; simp [Function.comp, hi]), hdrop, hregf, list_set_getD_self _ _ _ hp]
+  simp [Inst.is]
+
 /-! ## the full-strength statement is false of the current code: witnesses -/
 
 /-- C06 at full strength -/
